@@ -223,6 +223,11 @@ func c17World() *World {
 		PlannedTx{Signer: "own1", Msgs: []sdk.Msg{&tstypes.MsgCreateSpotOrder{OwnerAddress: own1.Addr.String(), OrderType: tstypes.SpotOrderType_LIMITBUY, OrderPrice: tstypes.OrderPrice{BaseDenom: "uusdc", QuoteDenom: "uatom", Rate: Dec("0.5")}, OrderAmount: C("uusdc", 1000000), OrderTargetDenom: "uatom"}}},
 		PlannedTx{Signer: "own1", Msgs: []sdk.Msg{&tstypes.MsgCreatePerpetualOpenOrder{OwnerAddress: own1.Addr.String(), TriggerPrice: tstypes.TriggerPrice{TradingAssetDenom: "uatom", Rate: Dec("3")}, Collateral: C("uusdc", 1000000), TradingAsset: "uatom", Position: tstypes.PerpetualPosition_LONG, Leverage: Dec("2"), TakeProfitPrice: Dec("8"), StopLossPrice: math.LegacyZeroDec(), PoolId: 1}}},
 	)
+	own2 := w.A("own2")
+	w.mustBlock("orders of the would-be intruder",
+		PlannedTx{Signer: "own2", Msgs: []sdk.Msg{&tstypes.MsgCreateSpotOrder{OwnerAddress: own2.Addr.String(), OrderType: tstypes.SpotOrderType_LIMITBUY, OrderPrice: tstypes.OrderPrice{BaseDenom: "uusdc", QuoteDenom: "uatom", Rate: Dec("0.1")}, OrderAmount: C("uusdc", 1), OrderTargetDenom: "uatom"}}},
+		PlannedTx{Signer: "own2", Msgs: []sdk.Msg{&tstypes.MsgCreatePerpetualOpenOrder{OwnerAddress: own2.Addr.String(), TriggerPrice: tstypes.TriggerPrice{TradingAssetDenom: "uatom", Rate: Dec("3")}, Collateral: C("uusdc", 1000000), TradingAsset: "uatom", Position: tstypes.PerpetualPosition_LONG, Leverage: Dec("2"), TakeProfitPrice: Dec("8"), StopLossPrice: math.LegacyZeroDec(), PoolId: 1}}},
+	)
 	w.MustGov("airdrop", func(ctx sdk.Context) error {
 		w.App.TokenomicsKeeper.SetAirdrop(ctx, tktypes.Airdrop{Intent: "verif", Amount: 1, Authority: w.Gov, Expiry: 9999999999})
 		return nil
@@ -267,6 +272,19 @@ func ownerCases(w *World) map[string]sdk.Msg {
 		out[sdk.MsgTypeURL(m)] = m
 	}
 	return out
+}
+
+// ownerMixedCases: batch messages whose id list mixes the sender's OWN resource (id 2) with a
+// foreign one (id 1) — a batch-level owner check that only asks "does the sender own something
+// here?" passes these.
+func ownerMixedCases(w *World) []sdk.Msg {
+	b := w.A("own2").Addr.String()
+	return []sdk.Msg{
+		&tstypes.MsgCancelSpotOrders{Creator: b, SpotOrderIds: []uint64{2, 1}},
+		&tstypes.MsgCancelSpotOrders{Creator: b, SpotOrderIds: []uint64{1, 2}},
+		&tstypes.MsgCancelPerpetualOrders{OwnerAddress: b, OrderIds: []uint64{2, 1}},
+		&tstypes.MsgCancelPerpetualOrders{OwnerAddress: b, OrderIds: []uint64{1, 2}},
+	}
 }
 
 func roleCases(w *World) map[string]sdk.Msg {
@@ -455,6 +473,17 @@ func RunC17(tier string) int {
 		}
 	}
 
+	for _, m := range ownerMixedCases(w) {
+		u := sdk.MsgTypeURL(m)
+		err, diff := direct(m)
+		transitions++
+		res := "rejected"
+		if err == nil {
+			res = "ACCEPTED"
+			add(Finding{Clause: "owner_scoped_message_accepted_from_non_owner", Culprit: "direct", Disc: "type=" + u + ",batch=own+foreign", Detail: fmt.Sprintf("%s listing the sender's own resource together with another account's was accepted; stores changed: %v", u, diff)})
+		}
+		cases = append(cases, c17Case{u, "direct", "non_owner", "batch_mixing_own_and_foreign_ids", res})
+	}
 	// positive controls for owner-scoped messages: the owner's own request must be accepted
 	ownerFix := map[string]string{w.A("own2").Addr.String(): w.A("own1").Addr.String(), w.A("t2").Addr.String(): w.A("t1").Addr.String()}
 	for u, m := range owner {
@@ -515,6 +544,10 @@ func RunC17(tier string) int {
 			}
 		}
 	}
+	for _, m := range ownerMixedCases(w) {
+		ab = append(ab, abciCase{sdk.MsgTypeURL(m), "own2", m, "batch_mixing_own_and_foreign_ids"})
+	}
+	cat["/elys.tradeshield.MsgCancelSpotOrders"], cat["/elys.tradeshield.MsgCancelPerpetualOrders"] = "owner", "owner"
 	skip := map[string]bool{"acc": true}
 	v0, env0 := w.Height(), w.Env
 	sib := w.Exec(&BlockPlan{Dt: 5, Feed: true})
